@@ -671,7 +671,9 @@ pub fn run(tier: Tier) -> i32 {
     rep.rule = "paths: every sequence of 1..N segments over keys {a,b} each with optional index [0..2]; documents: every tree D ::= leaf | {} | {a:D} | {b:D} | {a:D,b:D} | [] | [D] | [D,D] up to the depth/node bound with unique string leaves; full product on 5 representations (hand-written Object, serde_yaml Mapping, serde_json Map, HashMap of std types, &dyn Object) against the reference resolver (identity of the addressed value); the same through Rule::matches with `path: leaf` for every leaf; nested-mapping form vs dotted form vs reference; nested blocks with several conditions incl. dotted keys sharing a first segment vs reference; a nested block as one cell of a row in a sequence of mappings under all 16 switch sets vs reference; totality on every key string over {a . [ ] 0 1 - + space} up to the length bound. non-trivial = document has both resolving and non-resolving paths".into();
     rep.assumptions = vec!["malformed index syntax (a[0][1], a[x]) has no value oracle, only totality".into()];
     // matrix cells beyond column 127 / 2047 must still be answered from their own field, never from another column
-    rep.stats.merge(crate::wide::run(tier.thorough(), false));
+    if crate::report::variant().is_none() {
+        rep.stats.merge(crate::wide::run(tier.thorough(), false));
+    }
     // the same exploration on the crate built with its `sync` feature (own copies of find / adapters)
     let vrc = crate::report::run_variant(&mut rep, "sync", "/verif/harness/target-sy/release/tv");
     if vrc >= 2 {
